@@ -606,7 +606,7 @@ static void run_workload(const Cfg& c) {
 }
 
 // configuration of instance `inst` of workload `wl`
-static Cfg make_cfg(const std::string& wl, long inst, uint64_t seed, int size, const std::string& scratch) {
+static Cfg make_cfg(const std::string& wl, long inst, long round, uint64_t seed, int size, const std::string& scratch) {
   vh::Rng rng(seed * 7919ULL + (uint64_t)inst * 104729ULL + std::hash<std::string>()(wl) % 1000003ULL);
   Cfg c;
   c.wl = wl; c.scratch = scratch; c.data_seed = rng.next() % 1000000007ULL;
@@ -631,7 +631,8 @@ static Cfg make_cfg(const std::string& wl, long inst, uint64_t seed, int size, c
   c.use_cache = true;
   const int nviews = c.N / 2 / c.mash;
   c.subsets = (nviews % 4 == 0 && rng.coin()) ? 2 : 1;
-  if (wl == "lazy") { c.geom = rng.range(0, 2) == 0 ? "BlocksOnCylindrical" : "Cylindrical"; c.span = 1; c.maxDelta = c.R - 1; c.mash = 1; c.maxT = 0; c.tofMash = 0;
+  // (tables 1-3 live in ProjDataInfoCylindrical(NoArcCorr), 4-5 in ProjDataInfoGenericNoArcCorr: alternate)
+  if (wl == "lazy") { c.geom = round % 2 == 1 ? "BlocksOnCylindrical" : "Cylindrical"; c.span = 1; c.maxDelta = c.R - 1; c.mash = 1; c.maxT = 0; c.tofMash = 0;
     if (c.geom != "Cylindrical") c.N = rng.coin() ? 16 : 24;
     c.numTang = c.N - 1; }
   if (wl == "scat") { c.N = rng.coin() ? 16 : 24; c.R = 2; c.numTang = 7; c.use_cache = rng.range(0, 3) != 0; c.maxT = 0; c.tofMash = 0; }
@@ -716,7 +717,7 @@ int main(int argc, char** argv) {
   for (long i = 0; i < ninst; ++i)
     for (const std::string& wl : wls) {
       ++id;
-      const Cfg c = make_cfg(wl, id, seed, size, scratch);
+      const Cfg c = make_cfg(wl, id, i, seed, size, scratch);
       {
         FILE* f = fopen(path.c_str(), "a");
         vh::Json j("Inst");
